@@ -498,7 +498,7 @@ def check_custom_inert(chk, tu, funcs):
 
 # ---- R08.5 ----------------------------------------------------------------------------------------
 
-def check_segment_kinds(chk, tu):
+def check_segment_kinds(chk, tu, rule='R08.5'):
     fname = 'wasmReadDataSegment'
     chk.require(fname in tu.functions, 'anchor %s not found' % fname)
     chk.fn(fname)
@@ -530,7 +530,7 @@ def check_segment_kinds(chk, tu):
         try:
             paths = [p for p in it.explore(setup) if not p.aborted]
         except emit.ScriptMismatch as e:
-            chk.fail('R08.5', 'kind%d:decoders' % kind, 'data segment kind %d: %s - the segment fields are u32 LEB128 values; read otherwise, a padded '
+            chk.fail(rule, 'kind%d:decoders' % kind, 'data segment kind %d: %s - the segment fields are u32 LEB128 values; read otherwise, a padded '
                      'encoding of the same segment is rejected or decoded differently' % (kind, e), fname)
             results[kind] = ([], [])
             continue
@@ -540,9 +540,9 @@ def check_segment_kinds(chk, tu):
     for kind in (0, 1, 2):
         if not results[kind][0]:
             continue
-        chk.expect(len(results[kind][1]) == 1, 'R08.5', 'kind%d:accepted' % kind,
+        chk.expect(len(results[kind][1]) == 1, rule, 'kind%d:accepted' % kind,
                    'data segment kind %d: %d successful paths of %d' % (kind, len(results[kind][1]), len(results[kind][0])), site)
-    chk.expect(len(results[3][1]) == 0, 'R08.5', 'kind3:rejected', 'data segment kind 3 is accepted', site)
+    chk.expect(len(results[3][1]) == 0, rule, 'kind3:rejected', 'data segment kind 3 is accepted', site)
     # flag 2 with memory index 0 must be accepted exactly like flag 0, whether memory 0 is defined or imported
     for variant in ('defined', 'imported'):
         recs = {}
@@ -581,7 +581,7 @@ def check_segment_kinds(chk, tu):
                 ps = []
             recs[kind] = [p.state['res']['v'] for p in ps if p.state['err']['v'] == 0]
         ok = len(recs[0]) == 1 and len(recs[2]) == 1 and all(repr(recs[0][0][k]) == repr(recs[2][0][k]) for k in ('memoryIndex', 'offset', 'bytes', 'passive'))
-        chk.expect(ok, 'R08.5', 'kind2-memory0-equals-kind0:' + variant,
+        chk.expect(ok, rule, 'kind2-memory0-equals-kind0:' + variant,
                    'with a %s memory 0, a data segment written with flag 2 and memory index 0 gives %r while flag 0 gives %r: the two spec-equivalent '
                    'encodings must be accepted alike and decode to the same segment' % (variant, recs[2] or 'a reader error', recs[0] or 'a reader error'), site)
     if all(len(results[k][1]) == 1 for k in (0, 1, 2)):
@@ -591,15 +591,15 @@ def check_segment_kinds(chk, tu):
         s0, s2, s1 = r0.state['res']['v'], r2.state['res']['v'], r1.state['res']['v']
         ev = lambda p: [e[0] for e in p.events if e[0] in ('constexpr', 'bytes')]
         taken = lambda p: [t for t, v in p.state['stream'].log]
-        chk.expect(s0['memoryIndex'] == 0, 'R08.5', 'kind0:memory-zero', 'kind 0 yields memory index %r (must be the constant 0)' % (s0['memoryIndex'],), site)
-        chk.expect(repr(s2['memoryIndex']) == repr(unk('memidx', 'unsigned int')) and taken(r2) == ['u32', 'u32'], 'R08.5', 'kind2:memory-read',
+        chk.expect(s0['memoryIndex'] == 0, rule, 'kind0:memory-zero', 'kind 0 yields memory index %r (must be the constant 0)' % (s0['memoryIndex'],), site)
+        chk.expect(repr(s2['memoryIndex']) == repr(unk('memidx', 'unsigned int')) and taken(r2) == ['u32', 'u32'], rule, 'kind2:memory-read',
                    'kind 2 yields memory index %r after reading %r' % (s2['memoryIndex'], taken(r2)), site)
-        chk.expect(taken(r0) == ['u32'] and ev(r0) == ev(r2) == ['constexpr', 'bytes'], 'R08.5', 'kind0-vs-kind2:same-fields',
+        chk.expect(taken(r0) == ['u32'] and ev(r0) == ev(r2) == ['constexpr', 'bytes'], rule, 'kind0-vs-kind2:same-fields',
                    'kind 0 reads %r/%r, kind 2 reads %r/%r: they must differ only in the explicit memory index' % (taken(r0), ev(r0), taken(r2), ev(r2)), site)
         same = all(repr(s0[k]) == repr(s2[k]) for k in ('offset', 'bytes', 'passive')) and s0['passive'] == 0
-        chk.expect(same, 'R08.5', 'kind0-vs-kind2:same-record',
+        chk.expect(same, rule, 'kind0-vs-kind2:same-record',
                    'apart from the memory index the records differ: kind 0 %r vs kind 2 %r' % ({k: s0[k] for k in ('offset', 'bytes', 'passive')}, {k: s2[k] for k in ('offset', 'bytes', 'passive')}), site)
-        chk.expect(s1['passive'] == 1 and ev(r1) == ['bytes'] and taken(r1) == ['u32'], 'R08.5', 'kind1:passive',
+        chk.expect(s1['passive'] == 1 and ev(r1) == ['bytes'] and taken(r1) == ['u32'], rule, 'kind1:passive',
                    'kind 1 (passive) yields passive=%r reading %r/%r' % (s1['passive'], taken(r1), ev(r1)), site)
 
 
